@@ -27,7 +27,7 @@ def first_diff(a, b):
 
 def correspondence(rep, *, prop, mod_name, driver_kind, ncases, extra=(), nontrivial=None,
                    oracle_props=None, run_fn="run_impl", index_base=0, sample_fmt=None,
-                   shrink=None, max_report=3):
+                   shrink=None, max_report=3, mask_model=None):
     """Runs `ncases` generated cases. Returns aggregated stats. Reports violations into `rep`."""
     oracle_props = oracle_props or {prop}
     t0 = time.time()
@@ -52,6 +52,8 @@ def correspondence(rep, *, prop, mod_name, driver_kind, ncases, extra=(), nontri
     samples = []
     reported = 0
     for r, model in zip(results, outs):
+        if mask_model:
+            model = [mask_model(l) for l in model]
         for k, v in r.get("stats", {}).items():
             if isinstance(v, (int, float)):
                 stats[k] += v
